@@ -195,3 +195,59 @@ K.bounded("forall(i, 0 <= i < nvalh - 1, implies(not isnan(hvalues[i]), "
 # a period inside the data is missing only if an invalid interval touches it
 K.bounded("forall(i, 0 <= i < nvalh - 1, implies(isnan(hvalues[i]) and pe(i) <= varsec[nvalvar-1], "
           "exists(k, 0 <= k < nvalvar - 1, invalid(k) and varsec[k] <= pe(i) and varsec[k+1] >= ps(i))))", assumes=V2H_FUNC, props=["C14"])
+
+
+# ---- functional contract (C14): every value is missing or the exact period average of the interpolant (period total for rainfall)
+K = F.kernel("c_var2h#average")
+K.option(uf_mul=True)     # products / quotients of the trapezoids are only compared structurally with the ghost definition
+for r in V2H_SAFE:
+    K.requires(r)
+K.requires("nvalvar >= 2 and nvalh >= 2 and (rainfall == 0 or rainfall == 1) and (nbsec_per_period == 1800 or nbsec_per_period == 3600)")
+K.requires("forall(k, 1 <= k < nvalvar, varsec[k-1] <= varsec[k])")
+K.requires("varsec[0] <= hstartsec and hstartsec < varsec[nvalvar-1] and maxgapsec >= 0")
+K.assigns("hvalues[0:nvalh]")
+K.ghost("ps(i)", "int", "hstartsec + i*nbsec_per_period")
+K.ghost("pe(i)", "int", "hstartsec + (i+1)*nbsec_per_period")
+K.ghost("invalid(k)", "bool", "isnan(varvalues[k]) or isnan(varvalues[k+1]) or varvalues[k] < -1e-8 or varvalues[k+1] < -1e-8 or real(varsec[k+1]) - real(varsec[k]) > real(maxgapsec)")
+# interval k clipped to period i, and its contribution to the period integral, in the shape the code computes them
+K.ghost("rlo(k, i)", "real", "ite(real(varsec[k]) < real(ps(i)), real(ps(i)), real(varsec[k]))")
+K.ghost("rhi(k, i)", "real", "ite(real(varsec[k+1]) > real(pe(i)), real(pe(i)), real(varsec[k+1]))")
+K.ghost("slope(k)", "real", "(varvalues[k+1] - varvalues[k])/(real(varsec[k+1]) - real(varsec[k]))")
+K.ghost("trap(k, i)", "real", "ite(rhi(k, i) - rlo(k, i) > 1e-8, ite(rainfall == 1, "
+        "varvalues[k+1]*(rhi(k, i) - rlo(k, i))/(real(varsec[k+1]) - real(varsec[k]))*real(nbsec_per_period), "
+        "((slope(k)*(rhi(k, i) - real(varsec[k])) + varvalues[k]) + (slope(k)*(rlo(k, i) - real(varsec[k])) + varvalues[k]))*(rhi(k, i) - rlo(k, i))/2), 0.0)")
+K.ghost("integ(i, n)", "real", "ite(n <= 0, 0.0, integ(i, n - 1) + trap(n - 1, i))", decreases="n")
+# time stamps are non-decreasing over any distance
+K.lemma("sorted_far", "implies(b <= nvalvar - 1, varsec[a] <= varsec[b])", fixed=["a"], var="b", lo="a", pre="0 <= a", trigger="varsec[a]; varsec[b]")
+# intervals that end before the period starts contribute nothing; intervals that start after it ends neither
+K.lemma("integ_prefix", "implies(n <= nvalvar - 1 and varsec[n] <= ps(i), integ(i, n) == 0.0)", fixed=["i"], var="n", lo="0", trigger="integ(i, n)")
+K.lemma("integ_suffix", "implies(m <= nvalvar - 1 and 0 <= n0 and varsec[n0] >= pe(i), integ(i, m) == integ(i, n0))", fixed=["i", "n0"], var="m", lo="n0", trigger="integ(i, m); integ(i, n0)")
+K.ensures("result == 0", props=["C14"])
+A_ = ("implies(not isnan(hvalues[{p}]), hvalues[{p}] == integ({p}, nvalvar - 1)/real(nbsec_per_period) and pe({p}) <= varsec[nvalvar-1] and "
+      "forall(k, 0 <= k < nvalvar - 1, implies(rhi(k, {p}) - rlo(k, {p}) > 1e-8, not invalid(k))))")
+B_ = ("implies(isnan(hvalues[{p}]) and pe({p}) <= varsec[nvalvar-1], exists(k, 0 <= k < nvalvar - 1, invalid(k) and varsec[k] <= pe({p}) and varsec[k+1] >= ps({p})))")
+K.ensures("forall(p, 0 <= p < nvalh - 1, " + A_.format(p="p") + ")", props=["C14"])
+K.ensures("forall(p, 0 <= p < nvalh - 1, " + B_.format(p="p") + ")", props=["C14"])
+K.loop(0, var="varindex", invariant=["0 <= varindex and varindex <= nvalvar", "forall(k, 0 <= k < varindex, varsec[k] <= hstartsec)"], variant="nvalvar - varindex")
+K.loop(1, var="i", invariant=["0 <= i and (i <= nvalh or nvalh < 0)"])
+K.loop(2, var="i", invariant=[
+    "0 <= i and i <= nvalh - 1 and nbsec_per_period_d == real(nbsec_per_period) and isnan(nan)",
+    "0 <= varindex and varindex <= nvalvar - 2",
+    "varsec[varindex] <= ps(i)",
+    "varsec[varindex+1] >= ps(i) or varsec[nvalvar-1] < ps(i)",
+    "forall(p, 0 <= p < i, " + A_.format(p="p") + ")",
+    "forall(p, 0 <= p < i, " + B_.format(p="p") + ")"])
+K.loop(3, var="varindex", invariant=[
+    "0 <= i and i < nvalh - 1 and nbsec_per_period_d == real(nbsec_per_period) and isnan(nan)",
+    "0 <= varindex and varindex <= nvalvar - 2 and at_loop_entry(varindex) <= varindex",
+    "not isnan(t1) and t1 == real(varsec[varindex]) and not isnan(start) and start == real(ps(i)) and not isnan(end) and end == real(pe(i))",
+    "varsec[at_loop_entry(varindex)] <= ps(i)",
+    "varsec[at_loop_entry(varindex)+1] >= ps(i) or varsec[nvalvar-1] < ps(i)",
+    "varindex == at_loop_entry(varindex) or varsec[varindex - 1] < pe(i)",
+    "(isnan(val1) == isnan(varvalues[varindex])) and (isnan(val1) or val1 == varvalues[varindex])",
+    "miss == 0 or miss == 1",
+    "implies(miss == 0, forall(k, at_loop_entry(varindex) <= k < varindex, not invalid(k)))",
+    "implies(miss == 1, exists(k, at_loop_entry(varindex) <= k < varindex, invalid(k)))",
+    "implies(miss == 0, not isnan(hvalue) and hvalue == integ(i, varindex) - integ(i, at_loop_entry(varindex)))",
+    "forall(p, 0 <= p < i, " + A_.format(p="p") + ")",
+    "forall(p, 0 <= p < i, " + B_.format(p="p") + ")"], variant="nvalvar - varindex")
